@@ -1246,6 +1246,72 @@ func ruleR6(c *Ctx) {
 				ifEmpty(strings.Join(missing, ","), "none")+" missing; default="+fmt.Sprint(hasDefault))
 			return true
 		})
+		// the same dispatch written as `if x == A { } else if x == B { }` (two or more links)
+		inspectNoLit(f.Body, func(m ast.Node) bool {
+			head, ok := m.(*ast.IfStmt)
+			if !ok {
+				return true
+			}
+			linkConst := func(ifs *ast.IfStmt) (*types.Named, string) {
+				be, ok := unparen(ifs.Cond).(*ast.BinaryExpr)
+				if !ok || be.Op != token.EQL {
+					return nil, ""
+				}
+				n := namedOf(in.TypeOf(be.X))
+				if n == nil || n.Obj().Pkg() == nil || !isTargetPkg(p, n.Obj().Pkg().Path()) {
+					return nil, ""
+				}
+				if b, ok := n.Underlying().(*types.Basic); !ok || b.Info()&(types.IsInteger|types.IsString) == 0 {
+					return nil, ""
+				}
+				for _, e := range []ast.Expr{be.X, be.Y} {
+					if tv, ok := in.Types[e]; ok && tv.Value != nil {
+						return n, tv.Value.ExactString()
+					}
+				}
+				return nil, ""
+			}
+			n, first := linkConst(head)
+			if n == nil {
+				return true
+			}
+			if par, ok := p.Parent(head).(*ast.IfStmt); ok && par.Else == ast.Stmt(head) {
+				if pn, _ := linkConst(par); pn == n {
+					return true
+				}
+			}
+			consts := enumConsts(n)
+			handled := map[string]bool{first: true}
+			links, hasDefault := 1, false
+			for cur := head; ; {
+				switch e := cur.Else.(type) {
+				case *ast.IfStmt:
+					if en, v := linkConst(e); en == n {
+						handled[v] = true
+						links++
+						cur = e
+						continue
+					}
+					hasDefault = true // a different test: treated as the catch-all
+				case *ast.BlockStmt:
+					hasDefault = true
+				}
+				break
+			}
+			if links < 2 || len(consts) < 2 {
+				return true
+			}
+			var missing []string
+			for _, k := range consts {
+				if !handled[k.Val().ExactString()] {
+					missing = append(missing, k.Name())
+				}
+			}
+			c.Check(len(missing) == 0 || hasDefault, f, head, "if-chain over "+n.Obj().Name(),
+				"dispatch over enum "+typeString(n)+" covers every declared constant or has a final else",
+				ifEmpty(strings.Join(missing, ","), "none")+" missing; final else="+fmt.Sprint(hasDefault))
+			return true
+		})
 	}
 }
 
